@@ -12,7 +12,8 @@ if "--only" in args:
 # The change is applied in a scratch worktree of /repo's HEAD (never in /repo itself) and the checks are pointed at it
 # with VERIF_REPO; this is the same code path as the registered commands, only the source directory differs.
 R = os.environ.get("VERIF_SEED_REPO", "/tmp/seedrepo")
-lock = open(os.path.join(V, ".cache", "seedrepo.lock"), "w")
+TAG = os.path.basename(R)
+lock = open(os.path.join(V, ".cache", TAG + ".lock"), "w")
 fcntl.flock(lock, fcntl.LOCK_EX)
 head = subprocess.run(["git", "-C", "/repo", "rev-parse", "HEAD"], stdout=subprocess.PIPE, text=True).stdout.strip()
 if not os.path.isdir(R):
@@ -25,7 +26,7 @@ try:
     for p in args:
         t0 = time.time()
         cmd = [os.path.join(V, "check"), p, "--tier", "quick"] + (["--only", only] if only else [])
-        env = dict(os.environ); env["VERIF_EVIDENCE_DIR"] = os.path.join(V, ".cache", "seed-evidence"); env["VERIF_REPO"] = R; env["VERIF_LOG_TAG"] = ".seed"
+        env = dict(os.environ); env["VERIF_EVIDENCE_DIR"] = os.path.join(V, ".cache", "seed-evidence." + TAG); env["VERIF_REPO"] = R; env["VERIF_LOG_TAG"] = "." + TAG
         env["VERIF_REPLAY_DIR"] = os.path.join(V, ".cache", "seed-replays")
         r = subprocess.run(cmd, cwd=V, stdout=subprocess.PIPE, stderr=subprocess.STDOUT, text=True, env=env)
         lines = r.stdout.splitlines()
